@@ -83,3 +83,6 @@ def cases(tier, seed, ctx=None):
         yield ("proxy", [REQ, [], 0, [[0, stream[:k]], [0, stream[k:]], [1]], 0, env, [13]], "split-every-k")
         yield ("proxy", [REQ, [], 0, [[0, stream[:k]], [1]], 0, env, [13]], "close-every-k")
     yield ("proxy", [REQ, [], 0, [], 1, env, [13]], "refused")
+    # the downstream connection under back-pressure when the response ends: 12 MiB to a client that reads slowly through a small
+    # window, closed as soon as it was written - all of it arrives (family tlsraw, the transport path every relayed body takes)
+    yield ("tlsraw", [b"GET /bighuge HTTP/1.1\r\nHost: h\r\n\r\n", 0, 0, [], 1, 0, 6], "downstream-back-pressure-at-the-end")
